@@ -25,6 +25,18 @@ CHECKS = {
    text="Same engine run as C01 with the completeness obligations: a rule that matches verb+path under the strict reading implies dispatch to a method owning a matching rule, a literal spelling beats a wildcard/variable at the same top-level position, and a relational harness builds two tries from permuted registration orders and asserts equal dispatch and captures for the same symbolic path.",
    note="Trusted base as C01. Outside: permutations other than reversal/rotation, domination inside variable patterns (unspecified), unicode, longer paths.",
    design="§4 C02"),
+ "C16": dict(
+   text="Bounded symbolic model checking of registration: the real lexTemplate + addRule run on every template string up to the bound (all bytes symbolic) onto empty and pre-populated tries and are compared with an independent recursive-descent reference of the documented grammar (valid+resolvable => accepted; not derivable / unknown field / unresolvable body or response_body selector / colliding binding / nested bindings => error; never a panic; a rejected rule leaves the old route working).",
+   note="Trusted base as C01. Unspecified regions (only panic-freedom demanded): nested variables, '**' not last, literals not starting with a letter, message-typed path fields, kind-* vs specific verb across methods. Publication atomicity of registerService is not yet claimed here.",
+   design="§4 C16"),
+ "C19": dict(
+   text="Bounded symbolic model checking of the real ruleSelector.setRules/getRules: a symbolic well-formed selector plus a menu selector, both registration orders, against every symbolic method name within the bound; a rule is returned iff the reference selector semantics (exact name, '*', or 'prefix.*' covering >= 1 further component) says so.",
+   note="Trusted base as C01 plus the byte-wise model of strings.Index. Outside (N/A part): health.AddHealthz end-to-end; config-rule vs annotation equivalence through appendHandler is pending the registry driver.",
+   design="§4 C19"),
+ "C14": dict(
+   text="Bounded symbolic model checking of the metadata kernels: decodeBinHeader/encodeBinHeader with the real encoding/base64 interpreted on symbolic bytes (padded and unpadded), setOutgoingHeader with reserved names, symbolic near-misses and arbitrary short keys against a header map holding the reserved response headers, newIncomingContext on headers with symbolic values.",
+   note="Trusted: go/ssa semantics, engine, z3, context.WithValue stub. Outside: client-visible trailers on gRPC / gRPC-web (needs the serveGRPC driver), handler keys that are not lower-case, HPACK.",
+   design="§4 C14"),
 }
 
 NOT_APPLICABLE = {
